@@ -212,12 +212,12 @@ func c14Sig(kind string, e c14Entry) string {
 
 func TestVerifC14Registrations(t *testing.T) {
 	L := ev.Begin("C14", "c14-registrations", "exploration",
-		"catalog entries: name {svc, svc-1, 'sv c', 'billing /pay'} x address {v4, v6, empty->node address, IPv4-mapped v6} x port {0,80,65535} x urlprefix part {/x, foo.com/x, FOO.com/, :1234, foo.com (no slash), ${DC}.foo.com/, /[, empty} x every <=2-subset of 22 option strings (strip, proto=https/tcp/grpc and values that select no scheme (tcp+sni, http, bare proto), weight=0.2/abc/Inf/empty/-1, redirect with and without url and to a path on the same host, host=dst, allow, a=\"b\", tlsskipverify, bare flag) x extra tags {none, v1, two tags, quoted, backslash, non-ASCII, spaced, newline, quote+newline+a second command}; each next to a second well-formed service. The generated commands go through route.NewTable as makeConfig would emit them. oracle: (a) the whole text is accepted and the well-formed neighbour is present; (b) an expressible entry yields the target that denotes it (service, host/path, destination, weight, tags, opts), an inexpressible one is absent. non-trivial = entry with options or extra tags")
+		"catalog entries: name {svc, svc-1, 'sv c', 'billing /pay'} x address {v4, v6, empty->node address, IPv4-mapped v6} x port {0,80,65535} x urlprefix part {/x, foo.com/x, FOO.com/, :1234, foo.com (no slash), ${DC}.foo.com/, /[, empty, paths with a no-break / ideographic space} x every <=2-subset of 22 option strings (strip, proto=https/tcp/grpc and values that select no scheme (tcp+sni, http, bare proto), weight=0.2/abc/Inf/empty/-1 and weights with more than four decimals or an exponent, redirect with and without url and to a path on the same host, host=dst, allow, a=\"b\", tlsskipverify, bare flag) x extra tags {none, v1, two tags, quoted, backslash, non-ASCII, spaced, newline, quote+newline+a second command}; each next to a second well-formed service. The generated commands go through route.NewTable as makeConfig would emit them. oracle: (a) the whole text is accepted and the well-formed neighbour is present; (b) an expressible entry yields the target that denotes it (service, host/path, destination, weight, tags, opts), an inexpressible one is absent. non-trivial = entry with options or extra tags")
 	names := []string{"svc", "svc-1", "sv c", "billing /pay"}
 	addrs := []string{"10.1.2.3", "2001:db8::7", "", "::ffff:10.0.0.1"}
 	ports := []int{0, 80, 65535}
-	prefixes := []string{"/x", "foo.com/x", "FOO.com/", ":1234", "foo.com", "${DC}.foo.com/", "/[", "", "/x;y"}
-	optPool := []string{"strip=/x", "proto=https", "proto=tcp", "proto=grpc", "weight=0.2", "weight=abc", "weight=Inf", "weight=", "weight=-1", "redirect=301,https://t.example/", "redirect=301", "redirect=302,https://t.example$path", "redirect=301,/new", "host=be-$DC.internal", "host=dst", "allow=ip:10.0.0.0/8", "a=\"b\"", "tlsskipverify=true", "flag", "proto=tcp+sni", "proto=http", "proto"}
+	prefixes := []string{"/x", "foo.com/x", "FOO.com/", ":1234", "foo.com", "${DC}.foo.com/", "/[", "", "/x;y", "/docs/a\u00a0b", "/docs/a\u3000b"}
+	optPool := []string{"strip=/x", "proto=https", "proto=tcp", "proto=grpc", "weight=0.2", "weight=0.00004", "weight=0.33335", "weight=5e-5", "weight=abc", "weight=Inf", "weight=", "weight=-1", "redirect=301,https://t.example/", "redirect=301", "redirect=302,https://t.example$path", "redirect=301,/new", "host=be-$DC.internal", "host=dst", "allow=ip:10.0.0.0/8", "a=\"b\"", "tlsskipverify=true", "flag", "proto=tcp+sni", "proto=http", "proto"}
 	var optSets [][]string
 	optSets = append(optSets, nil)
 	for i := range optPool {
